@@ -344,6 +344,25 @@ def rescaling_sampling(tier, rng, rep):
                     rep.fail("polygon_edges_rescaling", "ideal endpoints of the polygon's edges", inp)
         rep.attempt("rescaling_runs", inp, body)
         rep.case(key=(t,), nontrivial=bool(np.any(fa < 0) or np.any(fb < 0)), sample=inp if t == 0 else None)
+        # points far from the origin (hyperbolic distance 6..11): their x_0 = 1 representative has a tiny Minkowski norm, which no
+        # absolute threshold may mistake for a null vector, whatever the scale of the representative
+        dfar = rng.uniform(6, 11, size=shape + (1,))
+        ufar = rng.normal(size=shape + (n,)); ufar /= np.linalg.norm(ufar, axis=-1, keepdims=True)
+        xf = spec.k2proj(np.tanh(dfar) * ufar)
+        inpf = {"n": n, "shape": list(shape), "distance_from_origin": dfar.tolist(), "fa": fa.tolist(), "fb": fb.tolist()}
+
+        def far():
+            O_ = pt(spec.k2proj(np.zeros(shape + (n,))))
+            d0 = O_.distance(pt(xf))
+            d1 = pt(fb * spec.k2proj(np.zeros(shape + (n,)))).distance(pt(fa * xf))
+            if not np.all(np.abs(d0 - dfar[..., 0]) <= 1e-5 * dfar[..., 0]) or not np.all(np.abs(d1 - d0) <= 1e-5 * dfar[..., 0]):
+                rep.fail("distance_rescaling", f"far point: d = {np.asarray(d0).tolist()}, rescaled {np.asarray(d1).tolist()}, expected {dfar[..., 0].tolist()}", inpf); return
+            hy = pt(fa * xf).coords("hyperboloid")
+            qh = np.einsum('...i,ij,...j->...', hy, spec.J(n + 1), hy)
+            if not np.all(np.abs(qh + 1) <= 1e-6):
+                rep.fail("coords_rescaling", f"hyperboloid coordinates of a far point have Minkowski norm {np.asarray(qh).tolist()}", inpf)
+        rep.attempt("rescaling_runs", inpf, far)
+        rep.case(key=(t, "far"), nontrivial=True)
         if n == 2 and shape == ():
             # boundary arcs between two ideal points: the arc (ordered endpoints, Poincare circle and angles) does not depend on
             # the representatives of its endpoints
